@@ -1,7 +1,6 @@
 //@unit c08_reduce__pins props=C08,C04 widths=u32
 //@use prelude/head.rs
-// not under contract: the parse entry points around lr / lr_upto (judged by the c08 sweep when one changes)
+// not under contract: parse_generictree / parse_noaction (parse_map with the tree-building / unit closures; parse_map and parse_actions are under contract in unit c08_entry); judged by the c08 sweep when one changes
+//@pin file=lrpar/src/lib/parser.rs fn=parse_noaction sha=893a538c5846d130
 //@pin file=lrpar/src/lib/parser.rs fn=parse_generictree sha=cc738ef01e0b6f46
-//@pin file=lrpar/src/lib/parser.rs fn=parse_actions nth=1 sha=2524b76017886613
-//@pin file=lrpar/src/lib/parser.rs fn=parse_map nth=1 sha=3ca8f632acbd1829
 //@use prelude/tail.rs
